@@ -4,6 +4,8 @@ CONSTANTS
   Fix = {}
   Known = {"S7", "S13", "S14"}
   Gen = TRUE
+  StripProps = {"hash_c1", "hash_c2"}
+  Weak = {}
 VIEW View
 INVARIANT Inv_NoViolation
 INVARIANT Inv_SecretsAgree
